@@ -1,4 +1,10 @@
 
+(** val negb : bool -> bool **)
+
+let negb = function
+| true -> false
+| false -> true
+
 type nat =
 | O
 | S of nat
@@ -60,6 +66,18 @@ type z =
 | Z0
 | Zpos of positive
 | Zneg of positive
+
+module Nat =
+ struct
+  (** val leb : nat -> nat -> bool **)
+
+  let rec leb n0 m =
+    match n0 with
+    | O -> true
+    | S n' -> (match m with
+               | O -> false
+               | S m' -> leb n' m')
+ end
 
 module Pos =
  struct
@@ -190,6 +208,13 @@ module Coq_Pos =
     | XI p -> add y (XO (mul p y))
     | XO p -> XO (mul p y)
     | XH -> y
+
+  (** val size : positive -> positive **)
+
+  let rec size = function
+  | XI p0 -> succ (size p0)
+  | XO p0 -> succ (size p0)
+  | XH -> XH
 
   (** val compare_cont : comparison -> positive -> positive -> comparison **)
 
@@ -328,6 +353,16 @@ module N =
     match compare x y with
     | Lt -> true
     | _ -> false
+
+  (** val log2 : n -> n **)
+
+  let log2 = function
+  | N0 -> N0
+  | Npos p0 ->
+    (match p0 with
+     | XI p -> Npos (Coq_Pos.size p)
+     | XO p -> Npos (Coq_Pos.size p)
+     | XH -> N0)
 
   (** val pos_div_eucl : positive -> n -> n * n **)
 
@@ -574,6 +609,23 @@ module Z =
     let (_, r) = div_eucl a b in r
  end
 
+(** val nth : nat -> 'a1 list -> 'a1 -> 'a1 **)
+
+let rec nth n0 l default =
+  match n0 with
+  | O -> (match l with
+          | [] -> default
+          | x :: _ -> x)
+  | S m -> (match l with
+            | [] -> default
+            | _ :: t -> nth m t default)
+
+(** val rev : 'a1 list -> 'a1 list **)
+
+let rec rev = function
+| [] -> []
+| x :: l' -> app (rev l') (x :: [])
+
 (** val concat : 'a1 list list -> 'a1 list **)
 
 let rec concat = function
@@ -586,13 +638,340 @@ let rec map f = function
 | [] -> []
 | a :: t -> (f a) :: (map f t)
 
+(** val existsb : ('a1 -> bool) -> 'a1 list -> bool **)
+
+let rec existsb f = function
+| [] -> false
+| a :: l0 -> (||) (f a) (existsb f l0)
+
 (** val forallb : ('a1 -> bool) -> 'a1 list -> bool **)
 
 let rec forallb f = function
 | [] -> true
 | a :: l0 -> (&&) (f a) (forallb f l0)
 
+(** val filter : ('a1 -> bool) -> 'a1 list -> 'a1 list **)
+
+let rec filter f = function
+| [] -> []
+| x :: l0 -> if f x then x :: (filter f l0) else filter f l0
+
+(** val firstn : nat -> 'a1 list -> 'a1 list **)
+
+let rec firstn n0 l =
+  match n0 with
+  | O -> []
+  | S n1 -> (match l with
+             | [] -> []
+             | a :: l0 -> a :: (firstn n1 l0))
+
+(** val skipn : nat -> 'a1 list -> 'a1 list **)
+
+let rec skipn n0 l =
+  match n0 with
+  | O -> l
+  | S n1 -> (match l with
+             | [] -> []
+             | _ :: l0 -> skipn n1 l0)
+
 type byte = n
+
+(** val lF : byte **)
+
+let lF =
+  Npos (XO (XI (XO XH)))
+
+(** val cR : byte **)
+
+let cR =
+  Npos (XI (XO (XI XH)))
+
+(** val list_eqb : n list -> n list -> bool **)
+
+let rec list_eqb a b =
+  match a with
+  | [] -> (match b with
+           | [] -> true
+           | _ :: _ -> false)
+  | x :: a' ->
+    (match b with
+     | [] -> false
+     | y :: b' -> (&&) (N.eqb x y) (list_eqb a' b'))
+
+(** val is_digit : n -> bool **)
+
+let is_digit b =
+  (&&) (N.leb (Npos (XO (XO (XO (XO (XI XH)))))) b)
+    (N.leb b (Npos (XI (XO (XO (XI (XI XH)))))))
+
+(** val b64_alphabet : byte list **)
+
+let b64_alphabet =
+  (Npos (XI (XO (XO (XO (XO (XO XH))))))) :: ((Npos (XO (XI (XO (XO (XO (XO
+    XH))))))) :: ((Npos (XI (XI (XO (XO (XO (XO XH))))))) :: ((Npos (XO (XO
+    (XI (XO (XO (XO XH))))))) :: ((Npos (XI (XO (XI (XO (XO (XO
+    XH))))))) :: ((Npos (XO (XI (XI (XO (XO (XO XH))))))) :: ((Npos (XI (XI
+    (XI (XO (XO (XO XH))))))) :: ((Npos (XO (XO (XO (XI (XO (XO
+    XH))))))) :: ((Npos (XI (XO (XO (XI (XO (XO XH))))))) :: ((Npos (XO (XI
+    (XO (XI (XO (XO XH))))))) :: ((Npos (XI (XI (XO (XI (XO (XO
+    XH))))))) :: ((Npos (XO (XO (XI (XI (XO (XO XH))))))) :: ((Npos (XI (XO
+    (XI (XI (XO (XO XH))))))) :: ((Npos (XO (XI (XI (XI (XO (XO
+    XH))))))) :: ((Npos (XI (XI (XI (XI (XO (XO XH))))))) :: ((Npos (XO (XO
+    (XO (XO (XI (XO XH))))))) :: ((Npos (XI (XO (XO (XO (XI (XO
+    XH))))))) :: ((Npos (XO (XI (XO (XO (XI (XO XH))))))) :: ((Npos (XI (XI
+    (XO (XO (XI (XO XH))))))) :: ((Npos (XO (XO (XI (XO (XI (XO
+    XH))))))) :: ((Npos (XI (XO (XI (XO (XI (XO XH))))))) :: ((Npos (XO (XI
+    (XI (XO (XI (XO XH))))))) :: ((Npos (XI (XI (XI (XO (XI (XO
+    XH))))))) :: ((Npos (XO (XO (XO (XI (XI (XO XH))))))) :: ((Npos (XI (XO
+    (XO (XI (XI (XO XH))))))) :: ((Npos (XO (XI (XO (XI (XI (XO
+    XH))))))) :: ((Npos (XI (XO (XO (XO (XO (XI XH))))))) :: ((Npos (XO (XI
+    (XO (XO (XO (XI XH))))))) :: ((Npos (XI (XI (XO (XO (XO (XI
+    XH))))))) :: ((Npos (XO (XO (XI (XO (XO (XI XH))))))) :: ((Npos (XI (XO
+    (XI (XO (XO (XI XH))))))) :: ((Npos (XO (XI (XI (XO (XO (XI
+    XH))))))) :: ((Npos (XI (XI (XI (XO (XO (XI XH))))))) :: ((Npos (XO (XO
+    (XO (XI (XO (XI XH))))))) :: ((Npos (XI (XO (XO (XI (XO (XI
+    XH))))))) :: ((Npos (XO (XI (XO (XI (XO (XI XH))))))) :: ((Npos (XI (XI
+    (XO (XI (XO (XI XH))))))) :: ((Npos (XO (XO (XI (XI (XO (XI
+    XH))))))) :: ((Npos (XI (XO (XI (XI (XO (XI XH))))))) :: ((Npos (XO (XI
+    (XI (XI (XO (XI XH))))))) :: ((Npos (XI (XI (XI (XI (XO (XI
+    XH))))))) :: ((Npos (XO (XO (XO (XO (XI (XI XH))))))) :: ((Npos (XI (XO
+    (XO (XO (XI (XI XH))))))) :: ((Npos (XO (XI (XO (XO (XI (XI
+    XH))))))) :: ((Npos (XI (XI (XO (XO (XI (XI XH))))))) :: ((Npos (XO (XO
+    (XI (XO (XI (XI XH))))))) :: ((Npos (XI (XO (XI (XO (XI (XI
+    XH))))))) :: ((Npos (XO (XI (XI (XO (XI (XI XH))))))) :: ((Npos (XI (XI
+    (XI (XO (XI (XI XH))))))) :: ((Npos (XO (XO (XO (XI (XI (XI
+    XH))))))) :: ((Npos (XI (XO (XO (XI (XI (XI XH))))))) :: ((Npos (XO (XI
+    (XO (XI (XI (XI XH))))))) :: ((Npos (XO (XO (XO (XO (XI
+    XH)))))) :: ((Npos (XI (XO (XO (XO (XI XH)))))) :: ((Npos (XO (XI (XO (XO
+    (XI XH)))))) :: ((Npos (XI (XI (XO (XO (XI XH)))))) :: ((Npos (XO (XO (XI
+    (XO (XI XH)))))) :: ((Npos (XI (XO (XI (XO (XI XH)))))) :: ((Npos (XO (XI
+    (XI (XO (XI XH)))))) :: ((Npos (XI (XI (XI (XO (XI XH)))))) :: ((Npos (XO
+    (XO (XO (XI (XI XH)))))) :: ((Npos (XI (XO (XO (XI (XI XH)))))) :: ((Npos
+    (XI (XI (XO (XI (XO XH)))))) :: ((Npos (XI (XI (XI (XI (XO
+    XH)))))) :: [])))))))))))))))))))))))))))))))))))))))))))))))))))))))))))))))
+
+(** val b64_pad : byte **)
+
+let b64_pad =
+  Npos (XI (XO (XI (XI (XI XH)))))
+
+(** val b64_char : n -> byte **)
+
+let b64_char s =
+  nth (N.to_nat s) b64_alphabet N0
+
+(** val b64_index_from : byte list -> n -> byte -> n option **)
+
+let rec b64_index_from l i c =
+  match l with
+  | [] -> None
+  | x :: r ->
+    if N.eqb x c then Some i else b64_index_from r (N.add i (Npos XH)) c
+
+(** val b64_index : byte -> n option **)
+
+let b64_index c =
+  b64_index_from b64_alphabet N0 c
+
+(** val is_b64_byte : byte -> bool **)
+
+let is_b64_byte c =
+  (||) (existsb (N.eqb c) b64_alphabet) (N.eqb c b64_pad)
+
+(** val b64_enc3 : byte -> byte -> byte -> byte list **)
+
+let b64_enc3 a b c =
+  let v =
+    N.add
+      (N.add
+        (N.mul a (Npos (XO (XO (XO (XO (XO (XO (XO (XO (XO (XO (XO (XO (XO
+          (XO (XO (XO XH))))))))))))))))))
+        (N.mul b (Npos (XO (XO (XO (XO (XO (XO (XO (XO XH))))))))))) c
+  in
+  (b64_char
+    (N.modulo
+      (N.div v (Npos (XO (XO (XO (XO (XO (XO (XO (XO (XO (XO (XO (XO (XO (XO
+        (XO (XO (XO (XO XH)))))))))))))))))))) (Npos (XO (XO (XO (XO (XO (XO
+      XH))))))))) :: ((b64_char
+                        (N.modulo
+                          (N.div v (Npos (XO (XO (XO (XO (XO (XO (XO (XO (XO
+                            (XO (XO (XO XH)))))))))))))) (Npos (XO (XO (XO
+                          (XO (XO (XO XH))))))))) :: ((b64_char
+                                                        (N.modulo
+                                                          (N.div v (Npos (XO
+                                                            (XO (XO (XO (XO
+                                                            (XO XH))))))))
+                                                          (Npos (XO (XO (XO
+                                                          (XO (XO (XO
+                                                          XH))))))))) :: (
+  (b64_char (N.modulo v (Npos (XO (XO (XO (XO (XO (XO XH))))))))) :: [])))
+
+(** val b64_groups : byte list -> byte list * byte list **)
+
+let rec b64_groups d = match d with
+| [] -> ([], d)
+| a :: l ->
+  (match l with
+   | [] -> ([], d)
+   | b :: l0 ->
+     (match l0 with
+      | [] -> ([], d)
+      | c :: r ->
+        let (o, rest) = b64_groups r in ((app (b64_enc3 a b c) o), rest)))
+
+(** val b64_tail : byte list -> byte list **)
+
+let b64_tail = function
+| [] -> []
+| a :: l ->
+  (match l with
+   | [] ->
+     let v =
+       N.mul a (Npos (XO (XO (XO (XO (XO (XO (XO (XO (XO (XO (XO (XO (XO (XO
+         (XO (XO XH)))))))))))))))))
+     in
+     (b64_char
+       (N.modulo
+         (N.div v (Npos (XO (XO (XO (XO (XO (XO (XO (XO (XO (XO (XO (XO (XO
+           (XO (XO (XO (XO (XO XH)))))))))))))))))))) (Npos (XO (XO (XO (XO
+         (XO (XO XH))))))))) :: ((b64_char
+                                   (N.modulo
+                                     (N.div v (Npos (XO (XO (XO (XO (XO (XO
+                                       (XO (XO (XO (XO (XO (XO
+                                       XH)))))))))))))) (Npos (XO (XO (XO (XO
+                                     (XO (XO XH))))))))) :: (b64_pad :: (b64_pad :: [])))
+   | b :: l0 ->
+     (match l0 with
+      | [] ->
+        let v =
+          N.add
+            (N.mul a (Npos (XO (XO (XO (XO (XO (XO (XO (XO (XO (XO (XO (XO
+              (XO (XO (XO (XO XH))))))))))))))))))
+            (N.mul b (Npos (XO (XO (XO (XO (XO (XO (XO (XO XH))))))))))
+        in
+        (b64_char
+          (N.modulo
+            (N.div v (Npos (XO (XO (XO (XO (XO (XO (XO (XO (XO (XO (XO (XO
+              (XO (XO (XO (XO (XO (XO XH)))))))))))))))))))) (Npos (XO (XO
+            (XO (XO (XO (XO XH))))))))) :: ((b64_char
+                                              (N.modulo
+                                                (N.div v (Npos (XO (XO (XO
+                                                  (XO (XO (XO (XO (XO (XO (XO
+                                                  (XO (XO XH))))))))))))))
+                                                (Npos (XO (XO (XO (XO (XO (XO
+                                                XH))))))))) :: ((b64_char
+                                                                  (N.modulo
+                                                                    (N.div v
+                                                                    (Npos (XO
+                                                                    (XO (XO
+                                                                    (XO (XO
+                                                                    (XO
+                                                                    XH))))))))
+                                                                    (Npos (XO
+                                                                    (XO (XO
+                                                                    (XO (XO
+                                                                    (XO
+                                                                    XH))))))))) :: (b64_pad :: [])))
+      | _ :: _ -> []))
+
+(** val b64_encode : byte list -> byte list **)
+
+let b64_encode d =
+  let (o, r) = b64_groups d in app o (b64_tail r)
+
+(** val b64_writer_go :
+    byte list -> byte list list -> byte list list * byte list **)
+
+let rec b64_writer_go buf = function
+| [] -> ([], (b64_tail buf))
+| p :: r ->
+  let (o, buf') = b64_groups (app buf p) in
+  let (os, cl) = b64_writer_go buf' r in ((o :: os), cl)
+
+(** val b64_writer : byte list list -> byte list list * byte list **)
+
+let b64_writer chunks =
+  b64_writer_go [] chunks
+
+(** val is_newline : byte -> bool **)
+
+let is_newline c =
+  (||) (N.eqb c lF) (N.eqb c cR)
+
+(** val b64_dec4 : n -> n -> n -> n -> byte list **)
+
+let b64_dec4 s0 s1 s2 s3 =
+  let v =
+    N.add
+      (N.add
+        (N.add
+          (N.mul s0 (Npos (XO (XO (XO (XO (XO (XO (XO (XO (XO (XO (XO (XO (XO
+            (XO (XO (XO (XO (XO XH))))))))))))))))))))
+          (N.mul s1 (Npos (XO (XO (XO (XO (XO (XO (XO (XO (XO (XO (XO (XO
+            XH)))))))))))))))
+        (N.mul s2 (Npos (XO (XO (XO (XO (XO (XO XH))))))))) s3
+  in
+  (N.modulo
+    (N.div v (Npos (XO (XO (XO (XO (XO (XO (XO (XO (XO (XO (XO (XO (XO (XO
+      (XO (XO XH)))))))))))))))))) (Npos (XO (XO (XO (XO (XO (XO (XO (XO
+    XH)))))))))) :: ((N.modulo
+                       (N.div v (Npos (XO (XO (XO (XO (XO (XO (XO (XO
+                         XH)))))))))) (Npos (XO (XO (XO (XO (XO (XO (XO (XO
+                       XH)))))))))) :: ((N.modulo v (Npos (XO (XO (XO (XO (XO
+                                          (XO (XO (XO XH)))))))))) :: []))
+
+(** val is_nil : 'a1 list -> bool **)
+
+let is_nil = function
+| [] -> true
+| _ :: _ -> false
+
+(** val b64_quanta : byte list -> byte list option **)
+
+let rec b64_quanta = function
+| [] -> Some []
+| c0 :: l ->
+  (match l with
+   | [] -> None
+   | c1 :: l0 ->
+     (match l0 with
+      | [] -> None
+      | c2 :: l1 ->
+        (match l1 with
+         | [] -> None
+         | c3 :: r ->
+           (match b64_index c0 with
+            | Some s0 ->
+              (match b64_index c1 with
+               | Some s1 ->
+                 (match b64_index c2 with
+                  | Some s2 ->
+                    (match b64_index c3 with
+                     | Some s3 ->
+                       (match b64_quanta r with
+                        | Some o -> Some (app (b64_dec4 s0 s1 s2 s3) o)
+                        | None -> None)
+                     | None ->
+                       if (&&) (N.eqb c3 b64_pad) (is_nil r)
+                       then Some (firstn (S (S O)) (b64_dec4 s0 s1 s2 N0))
+                       else None)
+                  | None ->
+                    if (&&) ((&&) (N.eqb c2 b64_pad) (N.eqb c3 b64_pad))
+                         (is_nil r)
+                    then Some (firstn (S O) (b64_dec4 s0 s1 N0 N0))
+                    else None)
+               | None -> None)
+            | None -> None))))
+
+(** val b64_strip : byte list -> byte list **)
+
+let b64_strip s =
+  filter (fun c -> negb (is_newline c)) s
+
+(** val b64_decode : byte list -> byte list option **)
+
+let b64_decode s =
+  b64_quanta (b64_strip s)
 
 (** val escape_leader : n **)
 
@@ -624,6 +1003,89 @@ let escape_all_chars =
 
 let escape_all_first_code =
   Npos (XI (XO (XO (XO (XO (XO XH))))))
+
+(** val trzsz_letter_ranges : (n * n) list **)
+
+let trzsz_letter_ranges =
+  ((Npos (XI (XO (XO (XO (XO (XI XH))))))), (Npos (XO (XI (XO (XI (XI (XI
+    XH)))))))) :: (((Npos (XI (XO (XO (XO (XO (XO XH))))))), (Npos (XO (XI
+    (XO (XI (XI (XO XH)))))))) :: (((Npos (XO (XO (XO (XO (XI XH)))))), (Npos
+    (XI (XO (XO (XI (XI XH))))))) :: []))
+
+(** val trzsz_letter_chars : n list **)
+
+let trzsz_letter_chars =
+  (Npos (XI (XI (XO (XO (XO XH)))))) :: ((Npos (XO (XI (XO (XI (XI
+    XH)))))) :: ((Npos (XI (XI (XO (XI (XO XH)))))) :: ((Npos (XI (XI (XI (XI
+    (XO XH)))))) :: ((Npos (XI (XO (XI (XI (XI XH)))))) :: []))))
+
+(** val send_line_format : n list **)
+
+let send_line_format =
+  (Npos (XI (XI (XO (XO (XO XH)))))) :: ((Npos (XI (XO (XI (XO (XO
+    XH)))))) :: ((Npos (XI (XI (XO (XO (XI (XI XH))))))) :: ((Npos (XO (XI
+    (XO (XI (XI XH)))))) :: ((Npos (XI (XO (XI (XO (XO XH)))))) :: ((Npos (XI
+    (XI (XO (XO (XI (XI XH))))))) :: ((Npos (XI (XO (XI (XO (XO
+    XH)))))) :: ((Npos (XI (XI (XO (XO (XI (XI XH))))))) :: [])))))))
+
+(** val deliver_data_prefix : n list **)
+
+let deliver_data_prefix =
+  (Npos (XI (XI (XO (XO (XO XH)))))) :: ((Npos (XO (XO (XI (XO (XO (XO
+    XH))))))) :: ((Npos (XI (XO (XO (XO (XO (XO XH))))))) :: ((Npos (XO (XO
+    (XI (XO (XI (XO XH))))))) :: ((Npos (XI (XO (XO (XO (XO (XO
+    XH))))))) :: ((Npos (XO (XI (XO (XI (XI XH)))))) :: [])))))
+
+(** val data_v2_binary_format : n list **)
+
+let data_v2_binary_format =
+  (Npos (XI (XI (XO (XO (XO XH)))))) :: ((Npos (XO (XO (XI (XO (XO (XO
+    XH))))))) :: ((Npos (XI (XO (XO (XO (XO (XO XH))))))) :: ((Npos (XO (XO
+    (XI (XO (XI (XO XH))))))) :: ((Npos (XI (XO (XO (XO (XO (XO
+    XH))))))) :: ((Npos (XO (XI (XO (XI (XI XH)))))) :: ((Npos (XI (XO (XI
+    (XO (XO XH)))))) :: ((Npos (XO (XO (XI (XO (XO (XI XH))))))) :: ((Npos
+    (XI (XO (XI (XO (XO XH)))))) :: ((Npos (XI (XI (XO (XO (XI (XI
+    XH))))))) :: [])))))))))
+
+(** val data_v2_base64_prefix : n list **)
+
+let data_v2_base64_prefix =
+  (Npos (XI (XI (XO (XO (XO XH)))))) :: ((Npos (XO (XO (XI (XO (XO (XO
+    XH))))))) :: ((Npos (XI (XO (XO (XO (XO (XO XH))))))) :: ((Npos (XO (XO
+    (XI (XO (XI (XO XH))))))) :: ((Npos (XI (XO (XO (XO (XO (XO
+    XH))))))) :: ((Npos (XO (XI (XO (XI (XI XH)))))) :: [])))))
+
+(** val data_v1_binary_format : n list **)
+
+let data_v1_binary_format =
+  (Npos (XI (XI (XO (XO (XO XH)))))) :: ((Npos (XO (XO (XI (XO (XO (XO
+    XH))))))) :: ((Npos (XI (XO (XO (XO (XO (XO XH))))))) :: ((Npos (XO (XO
+    (XI (XO (XI (XO XH))))))) :: ((Npos (XI (XO (XO (XO (XO (XO
+    XH))))))) :: ((Npos (XO (XI (XO (XI (XI XH)))))) :: ((Npos (XI (XO (XI
+    (XO (XO XH)))))) :: ((Npos (XO (XO (XI (XO (XO (XI XH))))))) :: ((Npos
+    (XO (XI (XO XH)))) :: []))))))))
+
+(** val pause_line_format : n list **)
+
+let pause_line_format =
+  (Npos (XI (XI (XO (XO (XO XH)))))) :: ((Npos (XI (XO (XI (XO (XO
+    XH)))))) :: ((Npos (XI (XI (XO (XO (XI (XI XH))))))) :: ((Npos (XO (XI
+    (XO (XI (XI XH)))))) :: ((Npos (XI (XO (XI (XI (XI XH)))))) :: ((Npos (XI
+    (XO (XI (XO (XO XH)))))) :: ((Npos (XI (XI (XO (XO (XI (XI
+    XH))))))) :: []))))))
+
+(** val ack_line_format : n list **)
+
+let ack_line_format =
+  (Npos (XI (XI (XO (XO (XO XH)))))) :: ((Npos (XI (XI (XO (XO (XI (XO
+    XH))))))) :: ((Npos (XI (XO (XI (XO (XI (XO XH))))))) :: ((Npos (XI (XI
+    (XO (XO (XO (XO XH))))))) :: ((Npos (XI (XI (XO (XO (XO (XO
+    XH))))))) :: ((Npos (XO (XI (XO (XI (XI XH)))))) :: ((Npos (XI (XO (XI
+    (XO (XO XH)))))) :: ((Npos (XO (XO (XI (XO (XO (XI XH))))))) :: ((Npos
+    (XI (XI (XI (XI (XO XH)))))) :: ((Npos (XI (XO (XI (XO (XO
+    XH)))))) :: ((Npos (XO (XO (XI (XO (XO (XI XH))))))) :: ((Npos (XI (XO
+    (XI (XO (XO XH)))))) :: ((Npos (XI (XI (XO (XO (XI (XI
+    XH))))))) :: []))))))))))))
 
 (** val leader : byte **)
 
@@ -718,16 +1180,16 @@ type rres =
     table -> byte list -> byte list list -> nat -> rres * (byte list * byte
     list list) **)
 
-let rec er_read t buffer cs size =
+let rec er_read t buffer cs size0 =
   match match buffer with
         | [] -> UOk ([], [])
-        | _ :: _ -> unesc t buffer size with
+        | _ :: _ -> unesc t buffer size0 with
   | UOk (out, rem) ->
     (match out with
      | [] ->
        (match cs with
         | [] -> (REof, (rem, []))
-        | c :: cs' -> er_read t (app rem c) cs' size)
+        | c :: cs' -> er_read t (app rem c) cs' size0)
      | _ :: _ -> ((RData out), (rem, cs)))
   | UErr c -> ((RErr c), (buffer, cs))
 
@@ -751,8 +1213,8 @@ let rec er_run fuel t buffer cs sizes dflt =
   match fuel with
   | O -> ([], EndFuel)
   | S f ->
-    let (size, sizes') = next_size sizes dflt in
-    let (r, p) = er_read t buffer cs size in
+    let (size0, sizes') = next_size sizes dflt in
+    let (r, p) = er_read t buffer cs size0 in
     (match r with
      | RData out ->
        let (b', cs') = p in
@@ -843,3 +1305,289 @@ let builtin_table escape_all =
   match table_of_json (builtin_json escape_all) with
   | Some t -> t
   | None -> []
+
+(** val wire_letter : byte -> bool **)
+
+let wire_letter b =
+  (||)
+    (existsb (fun r -> (&&) (N.leb (fst r) b) (N.leb b (snd r)))
+      trzsz_letter_ranges) (existsb (N.eqb b) trzsz_letter_chars)
+
+(** val wire_fmt : byte list -> byte list list -> byte list **)
+
+let rec wire_fmt f args =
+  match f with
+  | [] -> []
+  | c :: r ->
+    if N.eqb c (Npos (XI (XO (XI (XO (XO XH))))))
+    then (match r with
+          | [] -> c :: []
+          | _ :: r' ->
+            (match args with
+             | [] -> wire_fmt r' []
+             | a :: args' -> app a (wire_fmt r' args')))
+    else c :: (wire_fmt r args)
+
+(** val wire_dec_go : nat -> n -> byte list -> byte list **)
+
+let rec wire_dec_go fuel n0 acc =
+  let acc' =
+    (N.add (Npos (XO (XO (XO (XO (XI XH))))))
+      (N.modulo n0 (Npos (XO (XI (XO XH)))))) :: acc
+  in
+  (match fuel with
+   | O -> acc'
+   | S f ->
+     if N.eqb (N.div n0 (Npos (XO (XI (XO XH))))) N0
+     then acc'
+     else wire_dec_go f (N.div n0 (Npos (XO (XI (XO XH))))) acc')
+
+(** val wire_dec : n -> byte list **)
+
+let wire_dec n0 =
+  wire_dec_go (N.to_nat (N.log2 n0)) n0 []
+
+(** val wire_undec_go : n -> byte list -> n option **)
+
+let rec wire_undec_go acc = function
+| [] -> Some acc
+| c :: r ->
+  if is_digit c
+  then wire_undec_go
+         (N.add (N.mul acc (Npos (XO (XI (XO XH)))))
+           (N.sub c (Npos (XO (XO (XO (XO (XI XH)))))))) r
+  else None
+
+(** val wire_undec : byte list -> n option **)
+
+let wire_undec l = match l with
+| [] -> None
+| _ :: _ -> wire_undec_go N0 l
+
+(** val wire_line : byte list -> byte list -> byte list -> byte list **)
+
+let wire_line typ payload newline =
+  wire_fmt send_line_format (typ :: (payload :: (newline :: [])))
+
+(** val wire_int_line : byte list -> n -> byte list -> byte list **)
+
+let wire_int_line typ n0 newline =
+  wire_line typ (wire_dec n0) newline
+
+(** val wire_pause_line : byte list -> byte list -> byte list **)
+
+let wire_pause_line typ newline =
+  wire_fmt pause_line_format (typ :: (newline :: []))
+
+(** val wire_ack_line : n -> n -> byte list -> byte list **)
+
+let wire_ack_line len step newline =
+  wire_fmt ack_line_format
+    ((wire_dec len) :: ((wire_dec step) :: (newline :: [])))
+
+(** val wire_data_frame : bool -> byte list -> byte list -> byte list **)
+
+let wire_data_frame binary newline frame =
+  if binary
+  then app deliver_data_prefix
+         (app (wire_dec (N.of_nat (length frame))) (app newline frame))
+  else app deliver_data_prefix (app frame newline)
+
+(** val wire_data_piece : bool -> byte list -> byte list -> byte list **)
+
+let wire_data_piece binary newline piece =
+  if binary
+  then app
+         (wire_fmt data_v2_binary_format
+           ((wire_dec (N.of_nat (length piece))) :: (newline :: []))) piece
+  else app data_v2_base64_prefix (app piece newline)
+
+(** val wire_frames_go :
+    byte list -> byte list -> nat -> nat list -> nat -> byte list list **)
+
+let rec wire_frames_go s acc room sizes dflt =
+  match s with
+  | [] -> (match acc with
+           | [] -> []
+           | _ :: _ -> (rev acc) :: [])
+  | b :: r ->
+    (match room with
+     | O ->
+       let (n0, sizes') = next_size sizes dflt in
+       (rev (b :: acc)) :: (wire_frames_go r [] n0 sizes' dflt)
+     | S room' ->
+       (match room' with
+        | O ->
+          let (n0, sizes') = next_size sizes dflt in
+          (rev (b :: acc)) :: (wire_frames_go r [] n0 sizes' dflt)
+        | S _ -> wire_frames_go r (b :: acc) room' sizes dflt))
+
+(** val wire_frames : nat list -> nat -> byte list -> byte list list **)
+
+let wire_frames sizes dflt s =
+  let (n0, sizes') = next_size sizes dflt in
+  wire_frames_go s [] n0 sizes' dflt
+
+(** val wire_resplit :
+    byte list list -> nat list -> nat -> (bool * byte list) list **)
+
+let rec wire_resplit fs sizes dflt =
+  match fs with
+  | [] -> []
+  | f :: r ->
+    let (n0, sizes') = next_size sizes dflt in
+    if Nat.leb (length f) n0
+    then (true, f) :: (wire_resplit r sizes' dflt)
+    else let pieces = wire_frames sizes' dflt f in
+         app (map (fun p -> (false, p)) pieces)
+           (wire_resplit r (skipn (length pieces) sizes') dflt)
+
+(** val wire_render_piece :
+    bool -> byte list -> (bool * byte list) -> byte list **)
+
+let wire_render_piece binary newline p =
+  if fst p
+  then wire_data_frame binary newline (snd p)
+  else wire_data_piece binary newline (snd p)
+
+(** val wire_split_lf : byte list -> (byte list * byte list) option **)
+
+let rec wire_split_lf = function
+| [] -> None
+| c :: r ->
+  if N.eqb c lF
+  then Some ([], r)
+  else (match wire_split_lf r with
+        | Some p -> let (l, rest) = p in Some ((c :: l), rest)
+        | None -> None)
+
+(** val wire_split_colon : byte list -> (byte list * byte list) option **)
+
+let rec wire_split_colon = function
+| [] -> None
+| c :: r ->
+  if N.eqb c (Npos (XO (XI (XO (XI (XI XH))))))
+  then Some ([], r)
+  else (match wire_split_colon r with
+        | Some p -> let (a, b) = p in Some ((c :: a), b)
+        | None -> None)
+
+(** val wire_check : byte list -> byte list -> byte list option **)
+
+let wire_check typ line =
+  match wire_split_colon line with
+  | Some p ->
+    let (l, buf) = p in
+    (match l with
+     | [] -> None
+     | _ :: t -> if list_eqb t typ then Some buf else None)
+  | None -> None
+
+(** val wire_DATA : byte list **)
+
+let wire_DATA =
+  (Npos (XO (XO (XI (XO (XO (XO XH))))))) :: ((Npos (XI (XO (XO (XO (XO (XO
+    XH))))))) :: ((Npos (XO (XO (XI (XO (XI (XO XH))))))) :: ((Npos (XI (XO
+    (XO (XO (XO (XO XH))))))) :: [])))
+
+(** val wire_recv :
+    nat -> bool -> byte list -> (byte list list * byte list) option **)
+
+let rec wire_recv fuel binary w =
+  match fuel with
+  | O -> None
+  | S f ->
+    (match wire_split_lf w with
+     | Some p ->
+       let (line, rest) = p in
+       (match wire_check wire_DATA line with
+        | Some buf ->
+          if binary
+          then (match wire_undec buf with
+                | Some n0 ->
+                  if N.eqb n0 N0
+                  then Some ([], rest)
+                  else if Nat.leb (N.to_nat n0) (length rest)
+                       then (match wire_recv f binary
+                                     (skipn (N.to_nat n0) rest) with
+                             | Some p0 ->
+                               let (fs, rest') = p0 in
+                               Some (((firstn (N.to_nat n0) rest) :: fs),
+                               rest')
+                             | None -> None)
+                       else None
+                | None -> None)
+          else (match buf with
+                | [] -> Some ([], rest)
+                | _ :: _ ->
+                  (match wire_recv f binary rest with
+                   | Some p0 ->
+                     let (fs, rest') = p0 in Some ((buf :: fs), rest')
+                   | None -> None))
+        | None -> None)
+     | None -> None)
+
+(** val wire_encode_bytes :
+    (byte list -> byte list) -> byte list -> byte list **)
+
+let wire_encode_bytes zl d =
+  b64_encode (zl d)
+
+(** val wire_decode_string :
+    (byte list -> byte list option) -> byte list -> byte list option **)
+
+let wire_decode_string unzl s =
+  match b64_decode s with
+  | Some z0 -> unzl z0
+  | None -> None
+
+(** val wire_v1_chunk :
+    (byte list -> byte list) -> bool -> table -> byte list -> byte list ->
+    byte list **)
+
+let wire_v1_chunk zl binary t newline chunk =
+  if binary
+  then let buf = escape t chunk in
+       app
+         (wire_fmt data_v1_binary_format
+           ((wire_dec (N.of_nat (length buf))) :: [])) buf
+  else wire_line wire_DATA (wire_encode_bytes zl chunk) newline
+
+(** val wire_v1_decode :
+    (byte list -> byte list option) -> bool -> table -> byte list -> byte
+    list option **)
+
+let wire_v1_decode unzl binary t payload =
+  if binary
+  then (match unescape_data t payload O with
+        | UOk (o, rem) -> (match rem with
+                           | [] -> Some o
+                           | _ :: _ -> None)
+        | UErr _ -> None)
+  else wire_decode_string unzl payload
+
+(** val wire_v1_recv :
+    (byte list -> byte list option) -> bool -> table -> byte list -> (byte
+    list * byte list) option **)
+
+let wire_v1_recv unzl binary t w =
+  match wire_split_lf w with
+  | Some p ->
+    let (line, rest) = p in
+    (match wire_check wire_DATA line with
+     | Some buf ->
+       if binary
+       then (match wire_undec buf with
+             | Some n0 ->
+               if Nat.leb (N.to_nat n0) (length rest)
+               then (match wire_v1_decode unzl true t
+                             (firstn (N.to_nat n0) rest) with
+                     | Some c -> Some (c, (skipn (N.to_nat n0) rest))
+                     | None -> None)
+               else None
+             | None -> None)
+       else (match wire_v1_decode unzl false t buf with
+             | Some c -> Some (c, rest)
+             | None -> None)
+     | None -> None)
+  | None -> None
